@@ -141,6 +141,8 @@ def extra(rng, tier):
             xs = sorted({float(rng.randint(-300, 300)) / 16 for _ in range(n * 3)})[:n]
             if len(xs) < n:
                 continue
+            if rng.random() < 0.25:
+                xs = gen.axis_f(rng, n, "indexlike")       # 0 .. n-1 at the ends, uneven (dyadic) in between: looks like the default axis
             flat = [float(rng.randint(-999, 999)) / 8 for _ in range(n * L)]
             flat2 = [float(rng.randint(-999, 999)) / 8 for _ in range(n * L)]
             bc, lanes = c02.rand_bc(rng, "F", L, trailing)
